@@ -250,6 +250,13 @@ class IndexTyper:
                 return UNK
             if f == "zip" and args:
                 return ("LIST", ("TUP", [self.elem(a) for a in args]))
+            if f.split(".")[-1] in ("combinations", "permutations", "combinations_with_replacement") and len(args) == 2 and isinstance(e.args[1], ast.Constant) and isinstance(e.args[1].value, int) and 1 <= e.args[1].value <= 4:
+                # r-tuples of elements of one iterable: every member has the element's kind
+                return ("LIST", ("TUP", [self.elem(args[0])] * e.args[1].value))
+            if f.split(".")[-1] == "pairwise" and len(args) == 1:
+                return ("LIST", ("TUP", [self.elem(args[0])] * 2))
+            if f.split(".")[-1] == "product" and args and not e.keywords:
+                return ("LIST", ("TUP", [self.elem(a) for a in args]))
             if (f.endswith(".update") or f.endswith(".extend")) and len(args) == 1 and isinstance(e.args[0], (ast.Tuple, ast.List, ast.Set)):
                 tgt = ast.unparse(e.func.value)
                 ks = [normalise(self.ev(x)) for x in e.args[0].elts]
